@@ -93,6 +93,14 @@ func (t *Text) GenerateOutput(textOnly bool) string {
 			break
 		}
 
+		// A nestable element is written by the pair of Tags around this text, so
+		// it is the outermost element of the text no matter how it is displayed
+		// (e.g. <li style="display:inline">). Retaining its parents as well would
+		// put the element into the output a second time.
+		if CanBeNested(dom.TagName(clonedRoot)) {
+			break
+		}
+
 		if srcRoot == nil {
 			srcRoot = domutil.GetNearestCommonAncestor(t.GetTextNodes()...)
 			if srcRoot.Type != html.ElementNode {
